@@ -36,8 +36,8 @@ def make_console_script(d: str) -> str:
     return path
 
 
-def run_ep(ep: str, script: str, args: list[str], cwd: str):
-    env = dict(os.environ, PYTHONPATH=REPO, PYTHONDONTWRITEBYTECODE="1", PYTHONIOENCODING="utf-8")
+def run_ep(ep: str, script: str, args: list[str], cwd: str, ioenc: str = "utf-8"):
+    env = dict(os.environ, PYTHONPATH=REPO, PYTHONDONTWRITEBYTECODE="1", PYTHONIOENCODING=ioenc)
     if ep == "script":
         cmd = [sys.executable, script] + args
     elif ep == "modulePkg":
@@ -48,18 +48,22 @@ def run_ep(ep: str, script: str, args: list[str], cwd: str):
     return p.returncode, p.stdout.decode("utf-8", "replace"), p.stderr.decode("utf-8", "replace")
 
 
+KINDS = ["root-ok", "deleg-ok", "root-skip", "root-replay", "root-unsigned", "root-foreign", "root-raw-sigs", "deleg-unsigned",
+         "deleg-foreign", "unknown-role", "type-mismatch", "malformed-untrusted", "malformed-trusted", "not-json", "missing-untrusted", "missing-trusted",
+         "no-type", "payload-not-md", "root-junk-sig", "deleg-gpg-sigs", "deleg-ok-unicode-role"]
+
+
 def verify_pairs(rng, n):
     """(label, trusted bytes | None, untrusted bytes | None)"""
     out = []
+    shift = rng.randrange(len(KINDS))
     for i in range(n):
         ks = [gen.key(j) for j in rng.sample(range(8), rng.randint(1, 3))]
         thr = rng.randint(1, len(ks))
         km = [gen.key(8)]
         root1 = gen.envelope(gen.root_md(ks, thr, km, 1, version=rng.choice([1, 4])))
         v = root1["signed"]["version"]
-        kind = rng.choice(["root-ok", "root-ok", "deleg-ok", "deleg-ok", "root-skip", "root-replay", "root-unsigned", "root-foreign", "root-raw-sigs", "deleg-unsigned",
-                           "deleg-foreign", "unknown-role", "type-mismatch", "malformed-untrusted", "malformed-trusted", "not-json", "missing-untrusted", "missing-trusted",
-                           "no-type", "payload-not-md", "root-junk-sig"])
+        kind = KINDS[(i + shift) % len(KINDS)]
         t, u = root1, None
         if kind.startswith("root"):
             nv = {"root-skip": v + 2, "root-replay": v}.get(kind, v + 1)
@@ -78,6 +82,15 @@ def verify_pairs(rng, n):
                 gen.sign_env(u, km, False)
             if kind == "deleg-foreign":
                 gen.sign_env(u, [gen.key(7)] if gen.key(7) not in km else [gen.key(6)], False)
+        elif kind == "deleg-gpg-sigs":
+            # non-root metadata carrying only OpenPGP-mode signatures by the authorized keys: the library's delegation check (raw mode) rejects it
+            u = gen.envelope(gen.delegating_md("key_mgr", {"pkg_mgr": gen.delegation([gen.key(9)], 1)}))
+            gen.sign_env(u, km, True, rng)
+        elif kind == "deleg-ok-unicode-role":
+            # an accepted file whose declared type is not encodable on every stdout: success must still be reported with status 0
+            role = rng.choice(["caf\u00e9", "\ud800x", "\u65e5\u672c", "r\u00f4le\U0001f511"])
+            t = gen.envelope(gen.delegating_md("root", {"root": gen.delegation(ks, thr), "key_mgr": gen.delegation(km, 1), role: gen.delegation(km, 1)}, version=1))
+            u = gen.sign_env(gen.envelope({"type": role, "payload": [1, 2]}), km, False)
         elif kind == "unknown-role":
             u = gen.sign_env(gen.envelope({"type": "pkg_mgr", "x": 1}), km, False)
         elif kind == "type-mismatch":
@@ -123,7 +136,7 @@ def run(ck: Check) -> None:
     d = os.path.join(impl.scratch_dir(), "cli")
     os.makedirs(d, exist_ok=True)
     script = make_console_script(d)
-    pairs = verify_pairs(rng, 60 if ck.thorough else 14)
+    pairs = verify_pairs(rng, (4 if ck.thorough else 1) * len(KINDS))      # every kind in every run
     jobs = []
     lines = []
     for i, (kind, tb, ub, t, u) in enumerate(pairs):
@@ -136,17 +149,19 @@ def run(ck: Check) -> None:
                 os.unlink(fn)
         lines.append("cli verify " + ("x" + tb.hex() if tb is not None else "-") + " " + ("x" + ub.hex() if ub is not None else "-"))
         for ep in ENTRY_POINTS:
-            jobs.append((i, ep, ["verify-metadata", tf, uf]))
+            jobs.append((i, ep, ["verify-metadata", tf, uf], "utf-8"))
+            if kind == "deleg-ok-unicode-role":
+                jobs.append((i, ep, ["verify-metadata", tf, uf], "ascii"))      # the same run on a stdout that cannot encode the role name
     # argument-count errors
     for ep in ENTRY_POINTS:
-        jobs.append((-1, ep, ["verify-metadata", os.path.join(d, "t0.json")]))
-        jobs.append((-2, ep, []))
-        jobs.append((-3, ep, ["no-such-subcommand"]))
+        jobs.append((-1, ep, ["verify-metadata", os.path.join(d, "t0.json")], "utf-8"))
+        jobs.append((-2, ep, [], "utf-8"))
+        jobs.append((-3, ep, ["no-such-subcommand"], "utf-8"))
     model = ck.driver.run(lines, list(range(len(lines))))
     with ThreadPoolExecutor(max_workers=16) as ex:
-        outs = list(ex.map(lambda j: run_ep(j[1], script, j[2], d), jobs))
+        outs = list(ex.map(lambda j: run_ep(j[1], script, j[2], d, j[3]), jobs))
     ck.correspondences.add("corr:cli-verify-metadata/exit-status+success-line")
-    for (i, ep, args), (rc, out, err) in zip(jobs, outs):
+    for (i, ep, args, _enc), (rc, out, err) in zip(jobs, outs):
         ck.evaluations += 1
         if i < 0:
             ck.oracle_checks += 1
